@@ -25,6 +25,9 @@ pub enum Req {
     Modify(String, Vec<(u8, Vec<u8>, Vec<Vec<u8>>)>),
     ModDn(String, String, bool, Option<String>),
     Extended(String, Option<Vec<u8>>),
+    /// the typed extended requests: Password Modify (user, old, new; at least one present), Who Am I
+    PassMod(Option<String>, Option<String>, Option<String>),
+    WhoAmI,
     Abandon(i32),
     Unbind,
 }
@@ -105,6 +108,17 @@ fn model_msg(id: i64, r: &Req, ctl: &Option<Vec<(String, bool, Option<Vec<u8>>)>
         },
         Req::ModDn(dn, rdn, del, sup) => Op::ModDnReq { dn: b(dn), rdn: b(rdn), delold: *del, newsup: sup.as_ref().map(|s| b(s)) },
         Req::Extended(n, v) => Op::ExtReq { name: b(n), val: v.clone() },
+        Req::PassMod(u, o, n) => {
+            // RFC 3062: SEQUENCE { [0] userIdentity, [1] oldPasswd, [2] newPasswd }, each optional
+            let mut v = vec![];
+            for (tag, f) in [(0u32, u), (1, o), (2, n)] {
+                if let Some(x) = f {
+                    v.push(ber::Tlv::prim(ber::CTX, tag, x.as_bytes().to_vec()));
+                }
+            }
+            Op::ExtReq { name: b"1.3.6.1.4.1.4203.1.11.1".to_vec(), val: Some(ber::encode(&ber::Tlv::seq(v))) }
+        }
+        Req::WhoAmI => Op::ExtReq { name: b"1.3.6.1.4.1.4203.1.11.3".to_vec(), val: None },
         Req::Abandon(i) => Op::AbandonReq(*i as i64),
         Req::Unbind => Op::UnbindReq,
     };
@@ -149,6 +163,8 @@ async fn perform(ldap: &mut ldap3::Ldap, r: &Req) -> Result<(), LdapError> {
         }
         Req::ModDn(dn, rdn, del, sup) => ldap.modifydn(dn, rdn, *del, sup.as_deref()).await.map(|_| ()),
         Req::Extended(n, v) => ldap.extended(Exop { name: Some(n.clone()), val: v.clone() }).await.map(|_| ()),
+        Req::PassMod(u, o, n) => ldap.extended(ldap3::exop::PasswordModify { user_id: u.as_deref(), old_pass: o.as_deref(), new_pass: n.as_deref() }).await.map(|_| ()),
+        Req::WhoAmI => ldap.extended(ldap3::exop::WhoAmI).await.map(|_| ()),
         Req::Abandon(i) => ldap.abandon(*i).await,
         Req::Unbind => ldap.unbind().await,
     }
@@ -251,7 +267,7 @@ fn kind(r: &Req) -> &'static str {
         Req::Delete(_) => "delete",
         Req::Modify(..) => "modify",
         Req::ModDn(..) => "moddn",
-        Req::Extended(..) => "extended",
+        Req::Extended(..) | Req::PassMod(..) | Req::WhoAmI => "extended",
         Req::Abandon(_) => "abandon",
         Req::Unbind => "unbind",
     }
@@ -287,6 +303,17 @@ fn requests(tier: Tier) -> Vec<Req> {
     for n in ["1.2.3", "1.3.6.1.4.1.4203.1.11.3"] {
         for val in [None, Some(vec![]), Some(vec![0x30, 0x00]), Some(vec![7u8; 300])] {
             v.push(Req::Extended(n.to_string(), val));
+        }
+    }
+    v.push(Req::WhoAmI);
+    let f = [None, Some(""), Some("uid=jdoe,ou=é"), Some("p\u{e4}$$w0rd")];
+    for u in f {
+        for o in f {
+            for n in f {
+                if u.is_some() || o.is_some() || n.is_some() {
+                    v.push(Req::PassMod(u.map(String::from), o.map(String::from), n.map(String::from)));
+                }
+            }
         }
     }
     // searches
